@@ -153,7 +153,8 @@ check(
           "random, (a, single edit of a), documented equivalences wrapped to depth 3, different bases. Distinct = hash of the "
           "string / pair. Non-trivial = composite, parameterised or malformed string; a pair with a != b."),
     quick=[unit("codec", "^TestC19", checks=30000, timeout=900)],
-    thorough=[unit("codec", "^TestC19", checks=1000000, timeout=6000, shards=16)],
+    thorough={"units": [unit("codec", "^TestC19", checks=600000, timeout=6000, shards=16)],
+              "fuzz": [dict(pkg="codec", target="FuzzInfer", seconds=300, workers=8)]},
     manifest=dict(
         text="Generated-input search over a type-string grammar plus hostile strings; oracles: no panic, reported type "
              "compatible with the request, decode-soundness against reference-encoded data, reflexivity and symmetry of "
@@ -180,8 +181,12 @@ check(
           "mutation hit a structural field (not payload/name bytes), arbitrary-byte message inputs, or any compressed case."),
     quick=[unit("codec", "^TestC06(Block|Column|Message|Compressed|Saved)", checks=12000, timeout=900,
                 ulimit_v=6 * 1024 * 1024, crash_oracle=True)],
-    thorough=[unit("codec", "^TestC06(Block|Column|Message|Compressed|Saved)", checks=400000, timeout=10000, shards=16,
-                   ulimit_v=6 * 1024 * 1024, crash_oracle=True)],
+    thorough={"units": [unit("codec", "^TestC06(Block|Column|Message|Compressed|Saved)", checks=150000, timeout=10000, shards=16,
+                            ulimit_v=6 * 1024 * 1024, crash_oracle=True)],
+              "fuzz": [dict(pkg="codec", target="FuzzDecodeBlockAuto", seconds=420, workers=4),
+                       dict(pkg="codec", target="FuzzDecodeBlockTyped", seconds=420, workers=4),
+                       dict(pkg="codec", target="FuzzMessages", seconds=420, workers=4),
+                       dict(pkg="codec", target="FuzzCompressedStream", seconds=420, workers=4)]},
     crash_is_violation=True,
     replay_run="^TestC06Replay$",
     manifest=dict(
